@@ -9,7 +9,9 @@
 package c18
 
 import (
+	"bytes"
 	"context"
+	"encoding/json"
 	"fmt"
 	"io"
 	"net/netip"
@@ -17,6 +19,11 @@ import (
 	"time"
 
 	"github.com/database64128/shadowsocks-go/conn"
+	"github.com/database64128/shadowsocks-go/direct"
+	"github.com/database64128/shadowsocks-go/dns"
+	"github.com/database64128/shadowsocks-go/netio"
+	"github.com/database64128/shadowsocks-go/zerocopy"
+	"golang.org/x/net/dns/dnsmessage"
 
 	"verifsim/props/core"
 	"verifsim/props/svc"
@@ -36,13 +43,13 @@ func init() {
 		Rule: "one run = one generated configuration document of one class: invalid (exactly one documented invariant violated, from a catalogue of " +
 			"key lengths, SS2022 NAT timeout below the replay window, MTU below 1280, batch sizes and channel capacity out of range, dangling client/resolver/set/server/group-member " +
 			"references, duplicate names, unknown protocol/network, bad uPSK store, tunnel address problems), boundary-valid, default-spelling variants (omitted / empty / explicit " +
-			"default for rejectPolicy, paddingPolicy, legacy single-listener fields vs listener arrays, natTimeout, network, batchMode), or smoke (random valid combination of servers and " +
+			"default for rejectPolicy, paddingPolicy, legacy single-listener fields vs listener arrays, natTimeout, network, batchMode, and the DNS cacheSize default of 1024 entries observed through 1024…1032 distinct names), or smoke (random valid combination of servers and " +
 			"clients of every protocol driven with traffic and stopped); non-trivial = the verdict required loading the configuration and, for accepted ones, traffic flowed; distinct = " +
 			"distinct (class, injected item, protocols) shape",
 		Real:         []string{"service (config decoding, Manager, relays)", "router", "dns", "clientgroups", "cred", "ss2022 (policy fields, key checks)", "all protocol packages under smoke traffic"},
 		Stub:         []string{"kernel sockets (simnet)", "uPSK store on the simulated disk", "clock (synctest)", "TLS and GeoIP (never configured)"},
 		Assumptions:  []string{"the documented defaults are taken from README.md and the doc comments of the configuration structs", "a configuration the catalogue marks invalid violates one invariant only, so the refusal is attributable"},
-		ExpectProbes: []string{"c18.class.invalid", "c18.class.boundary", "c18.class.defaults", "c18.class.smoke", "c18.refused-as-required", "c18.smoke.tcp-ok", "c18.smoke.udp-ok", "c18.defaults.reject-policy", "c18.defaults.padding-policy", "c18.defaults.legacy-listener", "c18.defaults.client-network", "c18.smoke.domain-target", "c18.smoke.from-servers-route"},
+		ExpectProbes: []string{"c18.class.invalid", "c18.class.boundary", "c18.class.defaults", "c18.class.smoke", "c18.refused-as-required", "c18.smoke.tcp-ok", "c18.smoke.udp-ok", "c18.defaults.reject-policy", "c18.defaults.padding-policy", "c18.defaults.legacy-listener", "c18.defaults.client-network", "c18.defaults.dns-cache-size", "c18.smoke.domain-target", "c18.smoke.from-servers-route"},
 	})
 }
 
@@ -692,6 +699,10 @@ func echo(u *svc.UpConn) {
 // --- default spellings ----------------------------------------------------------------------------
 
 func runDefaults(s *simrt.Sim, e *svc.Env) {
+	if s.Choose(24) == 23 {
+		defaultsDNSCacheSize(s, e)
+		return
+	}
 	switch s.Choose(4) {
 	case 0:
 		defaultsRejectPolicy(s, e)
@@ -960,3 +971,120 @@ func defaultsLegacyListener(s *simrt.Sim, e *svc.Env) {
 }
 
 var _ = simos.DiskKey
+
+// defaultsDNSCacheSize: dns[].cacheSize "If zero, the default cache size is 1024" (dns/dns.go):
+// a resolver whose cacheSize is omitted, 0 or 1024 remembers 1024 names and no more. One run
+// takes one spelling, resolves n distinct names (n = 1024…1032) through the real resolver and a
+// simulated DNS server that counts queries, then asks for the first name again: with n <= 1024
+// it must come from the cache (no query leaves), with n > 1024 it must have been displaced (the
+// server is asked again). Both directions are the documented number, so neither a smaller nor a
+// larger (or unbounded) default passes.
+func defaultsDNSCacheSize(s *simrt.Sim, e *svc.Env) {
+	s.Probe("c18.defaults.dns-cache-size")
+	s.Param("class", "defaults: dns cacheSize")
+	s.PSwitch = 0
+	spelling := util.Pick(s, []string{"omitted", "zero", "1024"})
+	n := 1024 + s.Choose(9)
+	s.ShapeAdd(fmt.Sprintf("defaults dns-cache-size %s over=%v", spelling, n > 1024))
+	w := e.W
+	host := w.AddHost("dns", netip.MustParseAddr("10.0.5.1"), netip.MustParseAddr("fd00:5::1"))
+	server := netip.AddrPortFrom(host.IP4, 53)
+	sock := host.ListenUDP(netip.Addr{}, 53)
+	defer sock.Close()
+	queries := map[string]int{}
+	s.Go("dns-udp", func() {
+		buf := make([]byte, 2048)
+		for {
+			k, src, err := sock.ReadFromUDPAddrPort(buf)
+			if err != nil {
+				return
+			}
+			var p dnsmessage.Parser
+			h, err := p.Start(buf[:k])
+			if err != nil {
+				s.HarnessError("c18: dns server: unparsable query: %v", err)
+				return
+			}
+			q, err := p.Question()
+			if err != nil {
+				s.HarnessError("c18: dns server: no question: %v", err)
+				return
+			}
+			queries[q.Name.String()]++
+			msg := dnsmessage.Message{
+				Header:    dnsmessage.Header{ID: h.ID, Response: true, RecursionDesired: true, RecursionAvailable: true},
+				Questions: []dnsmessage.Question{q},
+			}
+			if q.Type == dnsmessage.TypeA {
+				msg.Answers = []dnsmessage.Resource{{
+					Header: dnsmessage.ResourceHeader{Name: q.Name, Type: dnsmessage.TypeA, Class: dnsmessage.ClassINET, TTL: 86400},
+					Body:   &dnsmessage.AResource{A: [4]byte{192, 0, 2, 1}},
+				}}
+			}
+			b, err := msg.Pack()
+			if err != nil {
+				s.HarnessError("c18: dns server: pack: %v", err)
+				return
+			}
+			sock.WriteToUDPAddrPort(b, netip.AddrPortFrom(src.Addr().Unmap(), src.Port()))
+		}
+	})
+
+	doc := svc.J{"name": "r", "addrPort": server.String(), "udpClientName": "direct"}
+	switch spelling {
+	case "zero":
+		doc["cacheSize"] = 0
+	case "1024":
+		doc["cacheSize"] = 1024
+	}
+	var rc dns.ResolverConfig
+	dec := json.NewDecoder(bytes.NewReader(svc.MustJSON(doc)))
+	dec.DisallowUnknownFields()
+	if err := dec.Decode(&rc); err != nil {
+		s.Fail("c18.valid-refused{dns-cache-size}", "resolver configuration refused at decode (cacheSize %s): %v", spelling, err)
+		return
+	}
+	udpMap := map[string]zerocopy.UDPClient{"direct": direct.NewDirectUDPClient("direct", "ip", 1500, conn.DefaultUDPClientListenConfig)}
+	sr, err := rc.NewSimpleResolver(map[string]netio.StreamClient{}, udpMap, util.Logger())
+	if err != nil {
+		s.Fail("c18.valid-refused{dns-cache-size}", "resolver configuration refused (cacheSize %s): %v", spelling, err)
+		return
+	}
+	r, ok := sr.(*dns.Resolver)
+	if !ok {
+		s.HarnessError("c18: NewSimpleResolver returned %T", sr)
+		return
+	}
+	ctx := context.Background()
+	name := func(i int) string { return fmt.Sprintf("n%d.test", i) }
+	for i := 0; i < n; i++ {
+		if _, err := r.Lookup(ctx, name(i)); err != nil {
+			s.HarnessError("c18: lookup %d of %d failed on a clean network: %v", i, n, err)
+			return
+		}
+		if queries[name(i)+"."] == 0 {
+			s.HarnessError("c18: lookup of a fresh name did not reach the server")
+			return
+		}
+	}
+	// the most recent name is cached under every reading of the documentation
+	before := queries[name(n-1)+"."]
+	if _, err := r.Lookup(ctx, name(n-1)); err != nil || queries[name(n-1)+"."] != before {
+		s.Fail("c18.default-mismatch{dnsCacheSize}", "cacheSize %s: the name resolved a moment ago was asked for again (err %v)", spelling, err)
+		return
+	}
+	before = queries[name(0)+"."]
+	if _, err := r.Lookup(ctx, name(0)); err != nil {
+		s.HarnessError("c18: final lookup failed on a clean network: %v", err)
+		return
+	}
+	asked := queries[name(0)+"."] != before
+	switch {
+	case n <= 1024 && asked:
+		s.Fail("c18.default-mismatch{dnsCacheSize}", "cacheSize %s: after %d distinct names (documented default: 1024 entries) the first name was no longer cached", spelling, n)
+	case n > 1024 && !asked:
+		s.Fail("c18.default-mismatch{dnsCacheSize}", "cacheSize %s: after %d distinct names the first name was still answered from the cache; the documented default keeps 1024 entries, only a negative size is unbounded", spelling, n)
+	default:
+		s.Probe("c18.defaults.dns-cache-size.judged")
+	}
+}
